@@ -3,7 +3,7 @@ from __future__ import annotations
 
 import ast
 
-from ..classify import KEYIDX, linear_index, offset_range
+from ..classify import KEYIDX, linear_index, offset_range, ring_coverage
 from ..engine import Ctx, Finding, RuleResult, cfg_str, trace_of
 from ..loader import AnalysisError
 from ..terms import EV, EVKEY, show, subterms
@@ -119,6 +119,11 @@ def rule_st2_3_4(ctx: Ctx):
                             "keeps the value of its previous lifetime" % n, extra=n))
                         for e in adds:
                             fam = _family(_index_of_key(e.key), li)
+                            if fam is not None and fam[0] == "ring" and not ring_coverage(_index_of_key(e.key), li):
+                                r3.ob(False, lambda e=e, n=name: mk_finding(
+                                    "ST-3", spec, kind, cfg, p, "state '%s' is initialised in a loop that does not enumerate all slots of the key's ring: %s" % (
+                                        n, show(e.key)), node=e.node, extra=n + "-partial-init"))
+                                fam = None
                             if fam is not None:
                                 init[name].add(fam)
                             else:
